@@ -203,6 +203,7 @@ def det_strategy(*, timers: bool = False, hitl: bool = False):
             "gather_post": draw(st.sampled_from([0, 0, 1])),
             "wait": draw(st.sampled_from([None, "plain", "req"])) if hitl else None,
             "wait_timeout": draw(st.sampled_from([None, None, 4, 15])) if (hitl and timers) else None,
+            "ask_post": draw(st.sampled_from([0, 0, 3, 8])) if hitl else 0,
             "ties": draw(st.lists(st.integers(0, 7), max_size=6)),
         }
 
@@ -270,6 +271,8 @@ def det_factory(case: dict, log: dict):
             except asyncio.TimeoutError:
                 reply = "timeout"
             log["asked"].append({"life": log["life"], "t": VClock.t, "reply": reply})
+            if case.get("ask_post"):
+                await asyncio.sleep(case["ask_post"])  # work after the wait was settled (by a reply or by its timeout)
             await ctx.store.set("reply", reply)
         state = await ctx.store.get_state()
         data = dict(state.items()) if hasattr(state, "items") else dict(state)
